@@ -101,9 +101,9 @@ def run(ctx: Ctx):
             root_ok = nonroot_ok = False
             for a in adds:
                 at = gv.guard_atoms(cfg.stmt_node_containing(a), stable_only=False)
-                if f"parent[{v}] is None" in at and (atom_of("children >= 2") in at or atom_of("children > 1") in at):
+                if f"parent[{v}] is _ROOT" in at and (atom_of("children >= 2") in at or atom_of("children > 1") in at):
                     root_ok = True
-                if f"parent[{v}] is not None" in at and atom_of(f"low[{w}] >= discovery[{v}]") in at:
+                if f"parent[{v}] is not _ROOT" in at and atom_of(f"low[{w}] >= discovery[{v}]") in at:
                     nonroot_ok = True
                 ctx.ob("C15-O5", "R1 STATUS-GUARD", d, "cut vertex is published for the visited vertex itself, after the child returned", ast.unparse(a.args[0]) == v and f"{w} not in discovery" in at, "", node=a)
             ctx.ob("C15-O5", "R1 STATUS-GUARD", d, "root is a cut vertex iff it has two or more DFS children", root_ok and "children += 1" in t and "children = 0" in t, "", node=d.node)
@@ -117,7 +117,9 @@ def run(ctx: Ctx):
                 edge = [n for n in own_nodes(d.node) if isinstance(n, ast.Assign) and ast.unparse(n.targets[0]) == ast.unparse(a.args[0])]
                 ctx.ob("C15-O5", "R1 STATUS-GUARD", d, "published edge is the tree edge (v, child) in canonical order", len(edge) == 1 and ast.unparse(edge[0].value) == f"({v}, {w}) if {v} < {w} else ({w}, {v})", "", node=a)
         tt = ast.unparse(f.node)
-        ctx.ob("C15-O5", "R29 EXACTLY-ONCE", f, "every undiscovered node starts a DFS as a root (parent None)", "for v in node_list:\n        if v not in discovery:\n            parent[v] = None\n            dfs(v)" in tt, "", node=f.node)
+        ctx.ob("C15-O5", "R29 EXACTLY-ONCE", f, "every undiscovered node starts a DFS as a root", "for v in node_list:\n        if v not in discovery:\n            parent[v] = _ROOT\n            dfs(v)" in tt, "", node=f.node)
+        rootdef = [n for n in ctx.repo.module("articulation").tree.body if isinstance(n, ast.Assign) and ast.unparse(n.targets[0]) == "_ROOT"]
+        ctx.ob("C15-O5", "R1 STATUS-GUARD", f, "the mark of a DFS root is a private object, not a value a node label can take", len(rootdef) == 1 and ast.unparse(rootdef[0].value) == "object()", f"`{ast.unparse(rootdef[0]) if rootdef else '?'}`: with None (or any other ordinary value) as the mark, a node with that label is taken for 'no parent': its children look like roots and the back edge to it is skipped, so cut vertices and bridges next to it are missed", node=rootdef[0] if rootdef else f.node)
 
     # ---- O2 k-core
     cfg = cfg_of(kc.node)
@@ -294,6 +296,13 @@ def run(ctx: Ctx):
         at = {a for a in lgv.guard_atoms(lcfg.node_of(degs[0]), stable_only=False, after_loops=False) if not a.startswith("IN-LOOP")}
         okg = okg and {atom_of("w not in adj[v]"), atom_of("w in node_set"), atom_of("w != v")} <= at and not (at - {atom_of("w not in adj[v]"), atom_of("w in node_set"), atom_of("w != v"), atom_of("n != 0"), atom_of("n != 1")})
     ctx.ob("C15-O3", "R16 PAIRED-EFFECTS", lou, "an undirected edge enters the weighted graph once: both adjacency entries and both degrees in one block, for neighbours inside the node set, other than the node itself, not yet recorded", bool(okg), "the reported modularity is computed from these degrees and weights: an edge counted twice, or with one degree missing, gives a modularity that is not the partition's", node=degs[0] if degs else lou.node)
+    ew = [n for n in own_nodes(lou.node) if isinstance(n, ast.Assign) and ast.unparse(n.targets[0]) == "edges_within"]
+    okw2 = len(ew) == 1
+    if okw2:
+        cmp_ = [c for c in ast.walk(ew[0].value) if isinstance(c, ast.Compare) and any(isinstance(o, (ast.Lt, ast.LtE, ast.Gt, ast.GtE)) for o in c.ops)]
+        halves = isinstance(ew[0].value, ast.BinOp) and isinstance(ew[0].value.op, ast.Div) and ast.unparse(ew[0].value.right) in ("2.0", "2")
+        okw2 = not cmp_ and halves and "for v in comm for w in comm" in ast.unparse(ew[0].value)
+    ctx.ob("C15-O3", "R18 table", lou, "edges inside a community are counted without comparing node labels", bool(okw2), f"`{ast.unparse(ew[0])[:90] if ew else '?'}`: an order test between labels picks one end of each edge only if `<` is a total order on the labels; for frozensets (subset order) or mixed types internal edges are dropped and the reported modularity is not the partition's", node=ew[0] if ew else lou.node)
     generic_sweeps(ctx)
 
 
@@ -387,6 +396,15 @@ def _v_louvain_one_degree(tree):
     M.replace_stmt(g, lambda s: isinstance(s, ast.AugAssign) and M.src_is(s.target, "degree[w]"), [])
 
 
+def _v_louvain_ordered_labels(tree):
+    g = M.find_func(tree, "louvain")
+    M.replace_stmt(g, lambda s: isinstance(s, ast.Assign) and M.src_is(s.targets[0], "edges_within"), M.stmts("edges_within = sum(adj[v].get(w, 0.0) for v in comm for w in comm if v < w)"))
+
+
+def _v_root_marked_none(tree):
+    M.replace_stmt(tree, lambda s: isinstance(s, ast.Assign) and M.src_is(s.targets[0], "_ROOT"), M.stmts("_ROOT = None"))
+
+
 def _v_louvain_degree(tree):
     g = M.find_func(tree, "louvain")
     M.replace_stmt(g, lambda s: M.src_is(s, "comm_degree[best_comm] += v_degree"), [])
@@ -425,6 +443,8 @@ VARIANTS = [
     M.Variant("k-core neighbour sometimes left out of every bucket", KC, _v_kcore_no_remove, "C15-O2"),
     M.Variant("kcore(k) uses a strict threshold", KC, _v_kcore_gt, "C15-O2"),
     M.Variant("louvain forgets to add the degree to the new community", CM, _v_louvain_degree, "C15-O3"),
+    M.Variant("louvain counts internal edges with `v < w` on the labels (original defect)", CM, _v_louvain_ordered_labels, "C15-O3"),
+    M.Variant("DFS roots are marked with None, a legal node label (original defect)", AR, _v_root_marked_none, "C15-O5"),
     M.Variant("louvain never clears its `improved` flag: the sweep loop cannot end", CM, _v_louvain_flag_never_cleared, "C15-G2"),
     M.Variant("pagerank does not hand the new vector over to the next sweep", PR, _v_pagerank_no_handover, "C15-O4"),
     M.Variant("louvain counts an edge in one endpoint's degree only", CM, _v_louvain_one_degree, "C15-O3"),
